@@ -110,6 +110,14 @@ func init() {
 			ts = append(ts, TrajSpecs(r.ID, sc, 96, 1, 97, step, 1, 256, []string{"t", "limM"}, tor)...)
 		}
 		ts = append(ts, TrajSpecs(r.ID, "map-drain-front", 180, 91, 181, step, 1, 256, []string{"t", "limM"}, tor)...)
+		// children of every kind (inlined, standalone, wrapped, composite) in every slab of multi-level parents:
+		// enumeration must hand out each child exactly once, in order, whatever slab and form it is stored in
+		for _, sc := range []string{"arr-kids", "arr-kids-compact"} {
+			ts = append(ts, TrajSpecs(r.ID, sc, 64, 4, 65, 2*step, 1, 256, []string{"t", "limA"}, tor)...)
+		}
+		for _, sc := range []string{"map-kids", "map-kids-compact"} {
+			ts = append(ts, TrajSpecs(r.ID, sc, 64, 4, 65, 2*step, 1, 256, []string{"t", "limM"}, tor)...)
+		}
 		r.ExploreSpecs(ts)
 	}})
 }
